@@ -100,16 +100,24 @@ def syn_finish(s):
     return s
 
 
-def syn_tmat(rng, swap=False, chk=True, style="plain"):
+def syn_tmat(rng, swap=False, chk=True, style="plain", topo=None):
+    """topo: None = left-to-right/Bakis matrices; "lower" = one backward transition (not upper triangular),
+    "skip" = one transition that skips two states (not Bakis) — rejected by the topology checks only"""
     s = s3_header(rng, swap, chk, style)
     nt, ns = rng.range(1, 3), rng.range(1, 3)
+    if topo == "lower":
+        ns = rng.range(2, 3)
+    if topo == "skip":
+        ns = 3
+    bad_t = rng.below(nt) if topo else -1
     nd = ns + 1
     s.u32(nt, "n_tmat"); s.u32(ns, "n_src"); s.u32(nd, "n_dst"); s.u32(nt * ns * nd, "n")
     s.hdr_end = len(s.b)
     for _ in range(nt):
         for j in range(ns):
             for k in range(nd):
-                s.u32(f2u(0.5 if k in (j, j + 1) else 0.0))
+                bad = _ == bad_t and ((topo == "lower" and (j, k) == (ns - 1, 0)) or (topo == "skip" and (j, k) == (0, 3)))
+                s.u32(f2u(0.5 if k in (j, j + 1) or bad else 0.0))
     return syn_finish(s), ("tmat",)
 
 
@@ -556,7 +564,8 @@ def abstract_ledger(spec):
 LEDGER_NAMES = {
     "tmat": {"tmat.c:t", "tmat.c:t->tp", "tmat.c:tp"},
     "gau": {"ms_gauden.c:g", "ms_gauden.c:g->det", "ms_gauden.c:veclen", "ms_gauden.c:out", "ms_gauden.c:buf"},
-    "lda": {"s3file.c:*buf", "s3file.c:*arr"}, "rd": {"s3file.c:*buf", "s3file.c:*arr"},
+    "lda": {"s3file.c:*buf", "s3file.c:*arr"}, "lda2": {"s3file.c:*buf", "s3file.c:*arr"},
+    "rd": {"s3file.c:*buf", "s3file.c:*arr"},
     "mdef": {"bin_mdef.c:m", "bin_mdef.c:m->ciname", "bin_mdef.c:m->sseq", "bin_mdef.c:m->cd2cisen", "bin_mdef.c:m->sen2cimap",
              "bin_mdef.c:m->ciname[0]"},
     "am": {"ptm_mgau.c:s", "ms_gauden.c:g", "ptm_mgau.c:*out_mixw", "ptm_mgau.c:pdf", "ptm_mgau.c:s->sen2cb", "ptm_mgau.c:s->hist",
@@ -572,17 +581,8 @@ def judge_ledger(meta, cl, ml):
     stage, led, _ = abstract_ledger(mm.group(1))
     cm = re.search(r" trace=(\S*)", cl)
     real = abstract_trace(cm.group(1), LEDGER_NAMES.get(meta["target"], set())) if cm else []
-    def canon(evs):
-        # the order of releases inside one run of consecutive releases is not part of the comparison
-        out, run = [], []
-        for e in evs:
-            if e[0] == "-":
-                run.append(e)
-            else:
-                out += sorted(run) + [e]
-                run = []
-        return out + sorted(run)
-    if canon(real) == canon(led):
+    # exact comparison: the order of the releases is part of the ledger (Props/C17.lean, C17_reject_leaves_clean)
+    if real == led:
         return ("ok", f"{meta['target']}:{stage}")
     return ("bad", {"stage": stage, "ledger": led, "trace": real})
 
@@ -621,6 +621,44 @@ def judge_a(case, cl, ml):
 
 
 # ----------------------------------------------------------------------------------------------
+
+def gen_stage_a_more(c, A, tier, stats):
+    """cases added for the ledger stages that were never reached (audit B10b); own random stream, so that the
+    cases generated from c.rng are the same as before"""
+    rng = vlib.Rng(c.seed * 7919 + 17)
+    # LDA read into a front end that already holds a matrix (feat->lda set by a first, intact file): every stage
+    # of the second call, with the release of the previous matrix in the allocation trace
+    for swap in (False, True):
+        so, to = syn_lda(rng, False, True, "plain")
+        for _ in range(20):
+            s, t = syn_lda(rng, swap, True, ["plain", "rich"][swap])
+            if t[1] == to[1]:
+                break
+        if t[1] == to[1]:
+            b, old = bytes(s.b), (hx(bytes(so.b)), "-")
+            meta = {"target": "lda2", "file": "syn-lda2"}
+            A.add(("lda2", t[1]), [old, (hx(b), "-")], dict(meta, kind="intact"))
+            for tr in range(0, len(b), 1 if tier == "thorough" else 2):
+                A.add(("lda2", t[1]), [old, (hx(b), f"t{tr}")], dict(meta, kind="trunc", must_reject=True))
+            for fname, off in s.fields.items():
+                x = struct.unpack_from("<I", b, off)[0]
+                for val in VALS(x):
+                    A.add(("lda2", t[1]), [old, (hx(b), f"w{off}:{val:x}")],
+                          dict(meta, kind="chksum" if fname == "chksum" else "field", field=fname))
+        for _ in range(20):
+            s2, t2 = syn_lda(rng, swap, True, "plain")
+            if t2[1] != to[1]:
+                # accepted by the reader, refused by the width check: the new matrix stays in feat->lda
+                A.add(("lda2", to[1]), [(hx(bytes(so.b)), "-"), (hx(bytes(s2.b)), "-")],
+                      {"target": "lda2", "file": "syn-lda2", "kind": "params"})
+                break
+    # transition matrices that are read completely and then refused by the topology checks
+    for swap in (False, True):
+        for topo in ("lower", "skip"):
+            for chk in (True, False):
+                s, t = syn_tmat(rng, swap, chk, "plain", topo=topo)
+                A.add(t, [(hx(bytes(s.b)), "-")], {"target": "tmat", "file": "syn-tmat", "kind": "topology"})
+
 
 def gen_stage_a(c, A, tier, stats):
     rng = c.rng
@@ -710,6 +748,7 @@ def gen_stage_a(c, A, tier, stats):
     # LDA read for a front end with another stream length
     s, t = syn_lda(rng, False, True, "plain")
     A.add(("lda", t[1] + 3), [(hx(bytes(s.b)), "-")], {"target": "lda", "file": "syn-lda", "kind": "params"})
+    gen_stage_a_more(c, A, tier, stats)
     # means / variances with equal counts but different vector lengths
     sm, _ = syn_gau(rng, False, True, "plain", dims=(2, 2, 1, [2, 3]))
     sv, _ = syn_gau(rng, False, True, "plain", var=True, dims=(2, 2, 1, [3, 2]))
@@ -1169,7 +1208,14 @@ def check(c):
             "gau:ok", "gau:mismatch", "gau:GauStage.means_(ParamStage.header)", "gau:GauStage.means_(ParamStage.veclen)",
             "gau:GauStage.means_(ParamStage.chksum)", "gau:GauStage.vars_(ParamStage.header)", "gau:GauStage.vars_(ParamStage.veclen)",
             "gau:GauStage.vars_(ParamStage.chksum)", "mdef:pre", "mdef:counts", "mdef:tables", "mdef:seqs", "mdef:maps", "mdef:ok",
-            "am:gauden", "am:checks", "am:sdHead", "am:sdRows", "am:mxHead", "am:nsen", "am:okSd", "am:okMx"]
+            "am:gauden", "am:checks", "am:sdHead", "am:sdRows", "am:mxHead", "am:nsen", "am:okSd", "am:okMx",
+            # a second feat_read_lda_s3file with a previous matrix in place (hadOld = true), every stage
+            "lda2:header", "lda2:chksum", "lda2:dims", "lda2:ok", "lda2:LdaStage.array_(ArrStage.dims)",
+            "lda2:LdaStage.array_(ArrStage.mismatch)",
+            # read completely, refused by tmat_chk_uppertri / tmat_chk_1skip
+            "tmat:topology"]
+    # not in the list: rd/lda ArrStage.data, tmat:row, gau ParamStage.data — dead code behind a length pre-check
+    # (Props/C17Fuel.lean, C17_short_read_stages_dead)
     pend_fixes = {e["fix"] for k in groups for e in [pending_match(k, pend)] if e}
     if "D19l" in pend_fixes:        # the stage exists only in the repaired code (see corpus/C17/pending-findings.json)
         want.remove("am:nsen")
